@@ -6,6 +6,9 @@ import (
 	"bytes"
 	"encoding/json"
 	"fmt"
+	"os"
+	"runtime/pprof"
+	"sort"
 	"strings"
 	"sync"
 	"time"
@@ -41,13 +44,20 @@ var sharedMu sync.Mutex
 
 // per-handler event log fed by the verif hooks ("handler.command", "handler.shutdown")
 var hookMu sync.Mutex
-var hookLog = map[string][]string{}
+var hookLog = map[string][]hookEv{}
+var hookSeq int
+
+type hookEv struct {
+	seq  int
+	name string
+}
 var hookOnce sync.Once
 
 func installHooks() {
 	hookOnce.Do(func() {
 		verifhook.Register(func(name string, args ...interface{}) {
-			if name != "handler.command" && name != "handler.shutdown" && name != "limiter.enter" && name != "limiter.released" {
+			if name != "handler.command" && name != "handler.shutdown" && name != "limiter.enter" && name != "limiter.released" &&
+				name != "aggregate.nomore" {
 				return
 			}
 			key := fmt.Sprintf("%p", args[0])
@@ -59,7 +69,8 @@ func installHooks() {
 				return // the client's acknowledgement of the close is not a read command
 			}
 			hookMu.Lock()
-			hookLog[key] = append(hookLog[key], name)
+			hookSeq++
+			hookLog[key] = append(hookLog[key], hookEv{hookSeq, name})
 			hookMu.Unlock()
 		})
 	})
@@ -173,6 +184,12 @@ func init() {
 			closed = true
 		case <-time.After(300 * time.Millisecond):
 		}
+		stacks := ""
+		if !closed && os.Getenv("DVERIF_STACKS") != "" {
+			var sb bytes.Buffer
+			pprof.Lookup("goroutine").WriteTo(&sb, 1)
+			stacks = sb.String()
+		}
 		h.Shutdown()
 		select {
 		case <-readerDone:
@@ -188,9 +205,18 @@ func init() {
 			}
 		}
 		hookMu.Lock()
-		events := hookLog[hkey]
+		evs := hookLog[hkey]
 		delete(hookLog, hkey)
+		if akey := h.VerifAggregatePtr(); akey != "" {
+			evs = append(evs, hookLog[akey]...)
+			delete(hookLog, akey)
+		}
 		hookMu.Unlock()
+		sort.Slice(evs, func(i, j int) bool { return evs[i].seq < evs[j].seq })
+		events := make([]string, len(evs))
+		for i, e := range evs {
+			events[i] = e.name
+		}
 		late := false
 		sawShutdown := false
 		lateFrom := 0 // number of commands counted before the counter first returned to 0
@@ -199,8 +225,22 @@ func init() {
 		// to a command that was counted later (the hook in shutdown() fires a log call after the
 		// decrement, so the order of the two "handler" events alone can miss it)
 		lateFiles := []string{}
+		// the same argument for the aggregator: when it decides that no further lines channel will come, every
+		// read command it knew of has finished; a file seen in the limiter afterwards belongs to a later one
+		aggDone := false
+		afterAgg := []string{}
+		for _, e := range events {
+			if e == "aggregate.nomore" {
+				aggDone = true
+				continue
+			}
+			if aggDone && strings.HasPrefix(e, "file:") {
+				afterAgg = append(afterAgg, e[5:])
+			}
+		}
 		for _, e := range events {
 			switch {
+			case e == "aggregate.nomore":
 			case e == "handler.shutdown":
 				sawShutdown = true
 			case strings.HasPrefix(e, "file:"):
@@ -215,6 +255,6 @@ func init() {
 			}
 		}
 		return map[string]interface{}{"frames": frames, "syn": acked, "closed": closed, "zero_before_cmd": zeroBefore,
-			"late_command": late, "late_from": lateFrom, "late_files": lateFiles, "events": events}, nil
+			"late_command": late, "late_from": lateFrom, "late_files": lateFiles, "aggregator_finished": aggDone, "files_after_aggregator": afterAgg, "events": events, "stacks": stacks}, nil
 	}
 }
